@@ -191,7 +191,12 @@ def skeleton_strategy(in_func, max_size=10, max_depth=4):
         for _ in range(n):
             if budget[0] <= 0:
                 break
-            out.append(draw(stmt(budget, in_loop, d)))
+            s = draw(stmt(budget, in_loop, d))
+            out.append(s)
+            if s[0] == "if" and len(s[1]) == 1 and s[1][0][0] in INTERRUPTS and not s[2]:
+                # a conditional interrupt is only interesting when something follows it
+                budget[0] -= 1
+                out.append(("M",))
         if not out:
             out.append(("M",))
         return tuple(out)
@@ -205,8 +210,15 @@ def skeleton_strategy(in_func, max_size=10, max_depth=4):
         if in_func:
             kinds += ["R0", "R1"]
         if d < max_depth and budget[0] >= 1:
-            kinds += ["if", "if", "ifelse", "wh", "for", "whelse", "forelse"]
+            kinds += ["if", "ifelse", "wh", "for", "whelse", "forelse", "whelse", "forelse"]
+            if in_loop or in_func:
+                kinds += ["condint", "condint", "condint"]
         k = draw(st.sampled_from(kinds))
+        if k == "condint":
+            # motif: `if C: <interrupt>` (block() appends a marker behind it)
+            budget[0] -= 1
+            ints = (["B", "K"] if in_loop else []) + (["R0", "R1"] if in_func else [])
+            return ("if", ((draw(st.sampled_from(ints)),),), ())
         if k in ("M", "B", "K", "R0", "R1"):
             return (k,)
         base = {"ifelse": "if", "whelse": "wh", "forelse": "for"}.get(k, k)
